@@ -172,6 +172,74 @@ def check_matrix(case, rec):
     return fails
 
 
+# ------------------------------------------------------------------------------------ (a1) failing plugin commands
+
+PLUGIN_ERRORS = ["ZeroDivisionError", "RuntimeError", "NotImplementedError", "AssertionError", "StopIteration", "csv.Error", "OddError",
+                 "KeyError", "IndexError", "RecursionError", "UnicodeDecodeError", "SystemError", "BufferError", "EOFError", "ImportError",
+                 "NameError", "MemoryError", "MaskError", "UserWarning", "OSError", "TypeError", "ValueError", "AttributeError", "OverflowError",
+                 "FloatingPointError", "LookupError", "ReferenceError", "StopAsyncIteration", "TimeoutError", "PermissionError"]
+PLUGIN_SHAPES = {
+    "leaf": "X = Raiser(Kind = \"%s\")\n",
+    "behind_consumer": "S = Src(V = 1)\nX = Raiser(Kind = \"%s\", After = S)\nY = Node(A = X)\n",
+    "in_list_forward": "Y = Node(L = [S, X])\nZ = Node(A = Y, B = S)\nS = Src(V = 2)\nX = Raiser(Kind = \"%s\")\n",
+}
+
+
+def plugin_cases():
+    for kind in PLUGIN_ERRORS:
+        for shape in sorted(PLUGIN_SHAPES):
+            yield {"kind": kind, "shape": shape}
+
+
+def check_plugin(case, rec):
+    """Whatever exception class a plugin command's execute() raises, run() reports an MPilot error and the command-line
+    tool prints the problem/solution message and exits non-zero (only interpreter-exit signals pass through)."""
+    from click.testing import CliRunner
+    from mpilot.cli.mpilot import main
+    from mpilot.exceptions import MPilotError
+    from mpilot.program import Program
+
+    text = PLUGIN_SHAPES[case["shape"]] % case["kind"]
+    sig = "plugin|%s" % case["shape"]  # one root cause (the wrapping in Command.run) whatever the class: it goes into the detail
+    rec.label("plugin:" + case["shape"])
+    rec.nontrivial_case(case)
+    try:
+        prog = Program.from_source(text, libraries=("vlib_verif",))
+    except Exception as exc:
+        return [Failure("plugin|load_raises:%s" % type(exc).__name__, "%r\n%s" % (exc, text))]
+    try:
+        prog.run()
+        return [Failure(sig + "|run_succeeds", text)]
+    except MPilotError as exc:
+        try:
+            str(exc)
+        except Exception as e2:
+            return [Failure(sig + "|str_raises:%s" % type(e2).__name__, repr(e2))]
+    except BaseException as exc:
+        if isinstance(exc, (KeyboardInterrupt, SystemExit)):
+            raise
+        return [Failure(sig + "|escaped@%s" % innermost_frame(exc), "%s escapes: %r\n%s" % (type(exc).__name__, exc, text))]
+    tmp = tempfile.mkdtemp(prefix="vcheck-c13-")
+    try:
+        path = os.path.join(tmp, "model.mpt")
+        with open(path, "w") as f:
+            f.write(text)
+        res = CliRunner().invoke(main, ["eems-csv", path, "-l", "vlib_verif"])
+        try:
+            stderr = res.stderr
+        except Exception:
+            stderr = res.output
+        if res.exception is not None and not isinstance(res.exception, SystemExit):
+            return [Failure(sig + "|cli_traceback:%s" % type(res.exception).__name__, "%r\n%s" % (res.exception, text))]
+        if res.exit_code == 0:
+            return [Failure(sig + "|cli_exit_zero", text)]
+        if "Problem:" not in stderr or "Solution:" not in stderr:
+            return [Failure(sig + "|cli_message_missing", "stderr %r" % stderr[-300:])]
+    finally:
+        shutil.rmtree(tmp, ignore_errors=True)
+    return []
+
+
 # ------------------------------------------------------------------------------------ (a2) EEMS 2.0 syntax
 
 def v2_cases():
@@ -285,7 +353,7 @@ def csv_cases(draw):
     model = draw(M.typed_models(max_nodes=3, clean=True))
     cols = sorted(model["cols"])
     kind = draw(st.sampled_from(["empty", "header_only", "ragged", "non_numeric", "missing_column", "blank_lines", "bom", "quotes",
-                                 "long_row", "nul", "only_newlines", "short_rows", "inf_nan", "unicode_digits", "crlf", "semicolons"]))
+                                 "long_row", "nul", "only_newlines", "short_rows", "inf_nan", "unicode_digits", "crlf", "semicolons", "huge_field"]))
     header = ",".join(cols)
     rows = [",".join("1.5" for _ in cols) for _ in range(model["rows"])]
     if kind == "empty":
@@ -313,6 +381,9 @@ def csv_cases(draw):
         content = ",".join('"%s"' % c for c in cols) + "\n" + "\n".join(",".join('"1.5"' for _ in cols) for _ in rows) + '\n"unterminated\n'
     elif kind == "long_row":
         content = header + "\n" + ",".join(["1"] * 5000) + "\n"
+    elif kind == "huge_field":
+        # longer than the csv module's field size limit (131072 characters): csv.Error, which derives directly from Exception
+        content = header + "\n" + ",".join(["1" * 140000] * len(cols)) + "\n"
     elif kind == "nul":
         content = header + "\n" + "1\x00,2\n"
     elif kind == "inf_nan":
@@ -424,11 +495,12 @@ def run_atheris(ctx, rec, runs):
         shutil.rmtree(tmp, ignore_errors=True)
 
 
-PARTS = {"matrix": check_matrix, "v2": check_v2, "corrupt": check_corrupt, "csv": check_csv, "text": check_text}
+PARTS = {"matrix": check_matrix, "plugin": check_plugin, "v2": check_v2, "corrupt": check_corrupt, "csv": check_csv, "text": check_text}
 
 
 def run_shard(ctx, rec):
     drive_enum(ctx, rec, "matrix", matrix_cases(), check_matrix, exhaustive=True, max_novel=12)
+    drive_enum(ctx, rec, "plugin", plugin_cases(), check_plugin, exhaustive=True, max_novel=12)
     drive_enum(ctx, rec, "v2", v2_cases(), check_v2, exhaustive=True, max_novel=12)
     drive(ctx, rec, "corrupt", corrupt_cases(), check_corrupt, ctx.n(2500, 60000), max_novel=6)
     drive(ctx, rec, "csv", csv_cases(), check_csv, ctx.n(800, 20000))
